@@ -476,43 +476,51 @@ static std::vector<Fail> structural(const UDecl& d, const std::string& text)
                 f.push_back({ "description-words", "entry '" + squeeze(head) + "' right column words " + mc::jlist(got) + " expected " + mc::jlist(want) });
         }
     }
-    // ---- line width
+    // ---- line width: only an unbreakable word (one that cannot fit the column, length + 1 > column width) may reach
+    // beyond column 80; every ordinary word has to end at or before column 80
     size_t syn_indent = 8 + d.app.size();
+    size_t syn_end = 0;
+    while (syn_end < lines.size() && !lines[syn_end].empty())
+        syn_end++;
     for (size_t k = 0; k < lines.size(); k++)
     {
         if (lines[k].size() <= 80)
             continue;
-        bool in_synopsis = false;
-        {
-            size_t e = 0;
-            while (e < lines.size() && !lines[e].empty())
-                e++;
-            in_synopsis = k < e;
-        }
+        bool in_synopsis = k < syn_end;
         size_t width = 80 - (in_synopsis ? std::min<size_t>(syn_indent, 79) : 40);
-        bool forced = false;
-        for (auto& w : words_of(lines[k]))
-            if (w.size() + 1 > width)
-                forced = true;
-        // synopsis units like "[-a <ARG>" contain a blank (from the tab); measure units between "] [" boundaries too
-        if (!forced && in_synopsis)
+        // units: blank separated; in the synopsis "<METAVAR>..." belongs to the token in front of it (a tab in the source)
+        struct Unit
         {
-            std::string l = lines[k];
-            size_t s = 0;
-            while (s < l.size())
+            size_t begin, end;
+        };
+        std::vector<Unit> units;
+        const std::string& l = lines[k];
+        size_t i = 0;
+        while (i < l.size())
+        {
+            while (i < l.size() && l[i] == ' ')
+                i++;
+            if (i >= l.size())
+                break;
+            size_t st = i;
+            while (i < l.size() && l[i] != ' ')
+                i++;
+            if (in_synopsis && l[st] == '<' && !units.empty())
+                units.back().end = i;
+            else
+                units.push_back({ st, i });
+        }
+        for (auto& u : units)
+        {
+            size_t len = u.end - u.begin;
+            bool unbreakable = len + 1 > width;
+            if (!unbreakable && u.end > 80)
             {
-                auto e = l.find("] [", s);
-                size_t len = (e == std::string::npos ? l.size() : e + 1) - s;
-                if (len + 1 > width)
-                    forced = true;
-                if (e == std::string::npos)
-                    break;
-                s = e + 2;
+                f.push_back({ "line-width", "line " + std::to_string(k) + " has " + std::to_string(l.size()) + " columns and the ordinary word '" +
+                                                l.substr(u.begin, len) + "' ends at column " + std::to_string(u.end) + ": " + l });
+                break;
             }
         }
-        if (!forced)
-            f.push_back({ "line-width", "line " + std::to_string(k) + " has " + std::to_string(lines[k].size()) +
-                                            " columns and no unbreakable word forces it: " + lines[k] });
     }
     return f;
 }
